@@ -395,7 +395,7 @@ FAVOURABLE = {"echo": "t", "answers": "yes", "wipe": "t", "unlock": "t", "newpin
 
 
 def scenario_from_model(cfg, e, rng, boundary=False, member=None, favourable=False, shapes=None,
-                        hist=None, n_other=1, n_rejected=None):
+                        hist=None, n_other=1, n_rejected=None, how=None, truth_onb=None):
     """Concretise one behaviour of GenAdmin (cfg + lazily chosen env). Dimensions the behaviour never
     looked at ("?") get seeded random members of their domain - or, for the PIN-decisive behaviours
     (`favourable`), the value that lets the command go on, so that a PIN the command should have
@@ -409,9 +409,10 @@ def scenario_from_model(cfg, e, rng, boundary=False, member=None, favourable=Fal
         cls = hist[-1]
         spread = {"sendseed": 32, "onbpin": 2, "sendnewpin": 2, "getkeys": 6}.get(e["linkat"], 1)
         link = {"kind": e["link"], "cls": cls, "nth": hist[:-1].count(cls) + rng.randrange(spread),
-                "how": rng.choice(["read", "write"])}
-        if favourable and cfg["op"] == "onboard" and e["onb"] == "?":
-            e["onb"] = rng.choice(["no", "yes"])     # what the device really is, not yet asked
+                "how": how or rng.choice(hows_at(e["linkat"]))}
+        if favourable and e["onb"] == "?":
+            # what the device really is (not yet asked, or the question is the exchange that fails)
+            e["onb"] = truth_onb or (rng.choice(["no", "yes"]) if cfg["op"] == "onboard" else "yes")
     if e["onb"] in ("g:yes", "g:no"):
         # is_onboarded() answers garbage; the device's ground truth is what follows the colon
         shapes.setdefault("onb", rng.choice(ONB_SHAPES))
@@ -863,6 +864,30 @@ def apdu_class(apdu, mode_byte):
 
 
 LINK_KINDS = ("lost", "late", "err")
+# the kinds of failure behind "err": link read / write error; an error status word of each class -
+# inside the powHSM range (0x69A0..0x6BFF, 0x6D00), outside it (no time-out) - and an exception of
+# the transport that the dongle class does not classify
+ERR_HOWS = ("read", "write", "sw:6a99", "sw:6b00", "sw:6d00", "sw:6e00", "sw:6f00", "sw:6f42", "sw:6800",
+            "sw:6200", "exc")
+# a status word the transport treats as success (the ordinary answer is delivered): random tier only
+SUCCESS_LIKE = ("sw:6100", "sw:6105")
+
+
+# failures the dongle class reports as a plain HSM2DongleError: get_current_mode() turns those into
+# the mode "unknown" (already an answer of the model's mode question), so they are not link faults there
+GENERIC_HOWS = ("sw:6e00", "sw:6f00", "sw:6f42", "sw:6800", "sw:6200", "exc")
+
+
+def hows_at(linkat):
+    return tuple(h for h in ERR_HOWS if not (linkat in ("mode", "mode2") and h in GENERIC_HOWS))
+
+
+def fault_spec(how):
+    if how.startswith("sw:"):
+        return ("sw", int(how[3:], 16))
+    if how == "exc":
+        return ("exc", OSError(5, "Input/output error"))
+    return (how,)
 
 
 def install_link_fault(world, link):
@@ -879,7 +904,8 @@ def install_link_fault(world, link):
         n = seen.get(c, 0)
         seen[c] = n + 1
         if c == link["cls"] and n == link["nth"]:
-            return ("timeout",) if link["kind"] in ("lost", "late") else (link.get("how", "read"),)
+            w.faulted_at = idx
+            return ("timeout",) if link["kind"] in ("lost", "late") else fault_spec(link.get("how", "read"))
         return None
     world.fault_hook = hook
 
@@ -948,7 +974,9 @@ def project(world):
             evs.append(_ev("get_pubkey", t, ans=decode_path(apdu[2:]), ok=okf))
         else:
             evs.append(_ev("cmd%02x" % cmd, t, ok=okf))
-        if e.get("fault") in ("timeout", "read", "write", "exc"):
+        if e.get("fault") in ("timeout", "read", "write", "exc") or (
+                getattr(world, "faulted_at", None) == e.get("i") and e.get("sw") not in (None, 0x9000)
+                and (e["sw"] & 0xFF00) != 0x6100):
             evs[-1]["ok"] = "x"          # the link failed: the host got no answer to this exchange
             evs[-1]["ans"] = "na"
     return evs
